@@ -35,12 +35,20 @@ RULE = ("Neighbourhood of valid strings: all single substitutions over the chars
         "(all of them in the thorough tier); mixed case; non-ASCII look-alikes from the interpreter's lower() "
         "table; wrong HRP; Bech32/Bech32m confusion; witness versions 0..31 x program lengths 0..42; "
         "ConvertBits exhaustively on short inputs.")
-TRUSTED = ["sha256 is an oracle (hashlib); secp256k1 private-key validity is an oracle (reference group order)",
+TRUSTED = ["sha256 is an oracle (hashlib); secp256k1 private-key validity is an oracle (32 bytes, 0 < k < n with the "
+           "reference group order); the WIF theorems assume |sha256 x| = 32 and that valid keys have 32 bytes",
            "Gen/CaseTables.v: chr(c).lower()/upper()/islower()/isupper() enumerated over the whole code space of the "
-           "interpreter that runs the library; str.lower() modelled per code point (final-sigma rule not modelled: "
-           "it only chooses between two non-ASCII code points)"]
-ASSUMPTIONS = ["hash output length 32 bytes", "valid private keys have 32 bytes"]
-BUDGET = {"quick": 170, "thorough": 1500}
+           "interpreter that runs the library; str.lower() is modelled per code point (the generator checks that "
+           "U+03A3 is the only context-dependent code point: final sigma, which only chooses between two non-ASCII "
+           "results)",
+           "Gen/Bech32Consts.v: constants inside PolyMod/HrpExpand/ComputeChecksum/_DecodeBech32 bodies are located by "
+           "an exact AST shape match (harness/gen_bech32.py); any other shape aborts the check",
+           "the three distance certificates (Lemmas/Bech32CertB32.v, Bech32CertX.v, Bech32CertCash.v) are evaluated "
+           "by the kernel's VM (vm_cast_no_check + Qed), re-run whenever the generator words change",
+           "SegwitBech32Encoder.Encode is modelled for wit_ver >= 0 only (Python's negative indexing of CHARSET is "
+           "not modelled); ConvertBits with to_bits = 0 (non-terminating in Python) returns OutOfFuel in the model"]
+ASSUMPTIONS = ["hash output length 32 bytes", "valid secp256k1 private keys have 32 bytes"]
+BUDGET = {"quick": 170, "thorough": 600}
 
 # ------------------------------------------------------------------ independent reference (from the specs)
 
